@@ -97,7 +97,7 @@ func c08(r *core.Run) {
 
 	root := p.FuncsOfPkg("")
 	c08ListenersWired(r, "O7", root)
-	r.Rule("O8", "an event that was applied is published: each event funnel (the functions handing their subject parameter to Conn.Publish) publishes, or hands the message to another funnel, on every path to its return - the only exit without a publish is the error edge of the payload's json.Marshal; a funnel that returns early on a state or configuration test makes apply and listeners run around a publish that never happens", 2)
+	r.Rule("O8", "an event that was applied is published: each event funnel (the functions handing their subject parameter to Conn.Publish) publishes, or hands the message to another funnel, on every path to its return - the only exit without a publish is the error edge of the payload's json.Marshal; a funnel that returns early on a state or configuration test makes apply and listeners run around a publish that never happens", 1)
 	c08FunnelAlwaysPublishes(r, "O8")
 	mp := mayPublish(p)
 	// helpers that (transitively) call listeners / apply handlers
@@ -1058,6 +1058,44 @@ func c08FunnelAlwaysPublishes(r *core.Run, rule string) {
 	if len(funnels) == 0 {
 		r.Unres(rule, "event-funnel", "no function hands its subject parameter to Conn.Publish")
 		return
+	}
+	// ... and the functions that hand their own subject parameter on to a funnel (event -> rawEvent)
+	subjIdx := map[*ssa.Function]int{}
+	for _, c := range invokes(root, "Conn", "Publish") {
+		if prm, ok := core.Strip(c.Common().Args[0]).(*ssa.Parameter); ok && funnels[c.Parent()] {
+			for i, q := range c.Parent().Params {
+				if q == prm {
+					subjIdx[c.Parent()] = i
+				}
+			}
+		}
+	}
+	for changed := true; changed; {
+		changed = false
+		for _, fn := range root {
+			if funnels[fn] || replyF[fn] || fn.Parent() != nil {
+				continue
+			}
+			for _, c := range core.Calls(fn) {
+				cal := c.Common().StaticCallee()
+				if cal == nil || !funnels[cal] {
+					continue
+				}
+				si, ok := subjIdx[cal]
+				if !ok || si >= len(c.Common().Args) {
+					continue
+				}
+				if prm, ok := core.Strip(c.Common().Args[si]).(*ssa.Parameter); ok && prm.Parent() == fn && isStringType(prm.Type()) {
+					for i, q := range fn.Params {
+						if q == prm {
+							subjIdx[fn] = i
+						}
+					}
+					funnels[fn] = true
+					changed = true
+				}
+			}
+		}
 	}
 	var fs []*ssa.Function
 	for fn := range funnels {
